@@ -5,17 +5,8 @@ import (
 	"os"
 	"testing"
 
-	"github.com/nspcc-dev/dbft/verifharness/sim"
 )
 
-// replayers re-execute a recorded choice stream for a property without rapid.
-var replayers = map[string]func(vals []int, keepLog bool) *sim.World{}
-
-func regSafety(prop string, mk func() []*sim.Mon, sh Shape) {
-	replayers[prop] = func(vals []int, keepLog bool) *sim.World {
-		return RunSafety(&ReplaySrc{Vals: vals}, mk(), keepLog, sh)
-	}
-}
 
 // TestReplay re-executes VERIF_REPLAY (a trace written by a failing run).
 // The library replays cached messages in Go map order, so a schedule that
@@ -48,19 +39,21 @@ func TestReplay(t *testing.T) {
 		fmt.Printf("REPLAY-OK property=%s scenario=%s\n", prop, Regress)
 		return
 	}
-	f := replayers[prop]
-	if f == nil {
+	fs := replayers[prop]
+	if len(fs) == 0 {
 		t.Fatalf("no replayer for %s", prop)
 	}
 	for attempt := 1; attempt <= 64; attempt++ {
-		w := f(vals, true)
-		for _, v := range w.Viols {
-			if v.Prop == prop && (key == "" || v.Key == key) {
-				fmt.Printf("REPLAY-VIOLATION property=%s key=%s attempt=%d: %s\n", v.Prop, v.Key, attempt, v.Msg)
-				if os.Getenv("VERIF_REPLAY_VERBOSE") != "" {
-					fmt.Println(w.Render())
+		for _, f := range fs {
+			w := f(vals, true)
+			for _, v := range w.Viols {
+				if v.Prop == prop && (key == "" || v.Key == key) {
+					fmt.Printf("REPLAY-VIOLATION property=%s key=%s attempt=%d: %s\n", v.Prop, v.Key, attempt, v.Msg)
+					if os.Getenv("VERIF_REPLAY_VERBOSE") != "" {
+						fmt.Println(w.Render())
+					}
+					return
 				}
-				return
 			}
 		}
 	}
